@@ -275,24 +275,24 @@ func regoC02(c *checkCtx) {
 		occ, n = 3, 3
 	}
 	var paths []regosym.Path
-	skipped := 0
+	mixed := 0
 	for _, p := range regosym.PathShapes(occ, 2, true) {
-		if regosym.Homogeneous(p) {
-			paths = append(paths, p)
-		} else {
-			skipped++
+		// paths whose alternatives end forward AND inverse are in: a node reached both ways is one value
+		if !regosym.Homogeneous(p) {
+			mixed++
 		}
+		paths = append(paths, p)
 	}
 	if c.tier == "thorough" {
 		// deeper expressions on a smaller graph
 		for _, p := range regosym.PathShapes(4, 1, false) {
-			if regosym.Homogeneous(p) && regosym.Occurrences(p) == 4 {
+			if regosym.Occurrences(p) == 4 {
 				paths = append(paths, p)
 			}
 		}
 	}
 	c.evidence["bounds_regosym"] = map[string]any{"path_expressions": len(paths), "predicate_occurrences": fmt.Sprintf("<= %d over 2 predicates (plus every shape with 4 occurrences of one predicate, forward or inverse, in the thorough tier)", occ), "nodes": n, "values_per_property": 2,
-		"modes": "property set (constraint values), node set (nested), array (uniqueValues)", "skipped_mixed_last_step": skipped,
+		"modes": "property set (constraint values), node set (nested), array (uniqueValues)", "paths_ending_forward_and_inverse": mixed,
 		"graph_features": "cycles, self loops, diamonds, two routes to one node, literals in mid-path, dangling references, absent nodes"}
 	nFor := func(p regosym.Path) int {
 		if regosym.Occurrences(p) >= 4 {
